@@ -108,7 +108,7 @@ def moments(profile, axis, delta, pop):
     return mean, (math.sqrt(var) if var > 1e-9 else None)
 
 
-def wake_reference(P, profiles, zre, zim):
+def wake_reference(P, profiles, zre, zim, with_noise=False):
     """profiles (nb, n) -> wake (nb, n) in cells per step, absolute scale from the machine parameters"""
     N = P["wake_N"]
     n = P["n"]
@@ -126,6 +126,12 @@ def wake_reference(P, profiles, zre, zim):
     out = np.zeros((len(P["buckets"]), n))
     for b, bk in enumerate(P["buckets"]):
         out[b] = scale * W[bk * sp: bk * sp + n]
+    if with_noise:
+        # rounding of the single-precision forward transform is absolute: ~2^-24 * max|F| in every bin, also in the high bins where
+        # |F| is tiny and |Z| is large; after the inverse transform that is a noise floor of 2^-24*max|F|*sqrt(sum|Z|^2)*2*scale*sqrt(log2 N)
+        # (unchanged code: observed 0.13 ... 0.28 of this for wakes of 1e-5 ... 4e-3 cells)
+        noise = 2.0 ** -24 * float(np.max(np.abs(F))) * math.sqrt(float(np.sum(np.abs(Z[:kmax]) ** 2))) * 2 * scale * math.sqrt(math.log2(N))
+        return out, noise
     return out
 
 
@@ -279,7 +285,7 @@ def check_file(h, opts, rep, steps_done=None, pfx="C10", full=True):
                     kk = own / want_pop
                     tm = 2e-5 * max(P["pq"], float(np.sum(np.abs(profile * axis))) * delta / abs(own))
                     raw_bad = abs(got_m - m) > tm or abs(got_s - sd) > 2e-5 * max(P["pq"], sd)
-                    model_ok = abs(got_m - m * kk) <= tm and abs(got_s - math.sqrt(max(kk * (sd * sd + (m - m * kk) ** 2), 0.0))) <= 2e-5 * max(P["pq"], sd) + 4e-5 * sd
+                    model_ok = abs(got_m - m * kk) <= tm and abs(got_s - math.sqrt(max(kk * (sd * sd + (m - m * kk) ** 2), 0.0))) <= 2e-5 * max(P["pq"], sd) + 4e-5 * sd + 0.05 * abs(kk - 1) * (sd + abs(m))
                     rep.ev("renormalised_energy_moment_records")
                     if raw_bad and model_ok:
                         rep.v(pfx + ":energy_moments:renormalised_record", "energy moments divided by the charge measured before the renormalisation of that step",
@@ -311,11 +317,11 @@ def check_file(h, opts, rep, steps_done=None, pfx="C10", full=True):
             for rec in range(min(nrec, wk.shape[0])):
                 if not finite_rec[rec] or not np.all(np.isfinite(wk[rec])):
                     continue
-                ref = wake_reference(P, prof[rec], zre, zim)
+                ref, noise = wake_reference(P, prof[rec], zre, zim, with_noise=True)
                 mx = float(np.max(np.abs(ref))) + 1e-300
                 rep.ev("wake_records_compared")
                 err = float(np.max(np.abs(wk[rec] - ref))) / mx
-                if not rep.r("wake_vs_convolution", err, 2e-5):
+                if not rep.r("wake_vs_convolution_over_tol", float(np.max(np.abs(wk[rec] - ref))) / (2e-5 * mx + 2.5 * noise), 1.0):
                     bad = int(np.argmax(np.max(np.abs(wk[rec] - ref), axis=1)))
                     rep.v(pfx + ":wake" + (":multibunch" if nb > 1 else ""), "stored wake potential is not the convolution of the stored profile with the stored impedance at the absolute scale implied by the parameters",
                           record=rec, rel_err=err, worst_bunch=bad, max_ref=mx)
@@ -341,6 +347,9 @@ def check_file(h, opts, rep, steps_done=None, pfx="C10", full=True):
                 for b in range(nb):
                     rep.ev("csr_records_compared")
                     tot = df * float(np.sum(spec[rec, b]))
+                    if max(abs(tot), abs(float(inten[rec, b]))) < 1e-30:
+                        rep.ev("subnormal_csr_records_skipped")      # single-precision subnormals carry no precision
+                        continue
                     if np.any(spec[rec, b] < 0):
                         rep.v(pfx + ":csr_negative", "stored CSR spectrum has negative entries", record=rec, bunch=b)
                     # the top bin N/2 enters the intensity but is not stored: estimate it from the last stored bin and the
@@ -349,7 +358,18 @@ def check_file(h, opts, rep, steps_done=None, pfx="C10", full=True):
                     Fall = np.abs(np.fft.rfft(pad)) ** 2
                     est = float(spec[rec, b, -1]) * Fall[Nr // 2] / Fall[Nr // 2 - 1] if Fall[Nr // 2 - 1] > 0 else 0.0
                     slack = 2e-4 * (abs(tot) + abs(inten[rec, b])) + 0.6 * df * abs(est) + 1e-300
-                    if not rep.r("csr_intensity_vs_spectrum", abs(inten[rec, b] - tot - df * est) / slack, 1.0):
+                    # where the top of the form factor lies below the rounding noise of a single-precision transform (2^-24*max|F| per bin)
+                    # the stored top bins are noise and the double-precision ratio above says nothing about the unstored one: it is then only
+                    # required to be "one more bin like the last stored ones" (between zero and four times the largest of the last four)
+                    nu2 = (2.0 ** -24) ** 2 * float(np.max(Fall)) * math.log2(Nr)
+                    if min(Fall[Nr // 2], Fall[Nr // 2 - 1]) < 1e3 * nu2:
+                        rep.ev("csr_records_with_noise_dominated_top_bins")
+                        extra = float(inten[rec, b]) - tot
+                        rel = 2e-4 * (abs(tot) + abs(inten[rec, b])) + 1e-300
+                        okc = rep.r("csr_intensity_minus_spectrum_noise_case", max(-extra / rel, (extra - 4 * df * float(np.max(spec[rec, b, -4:]))) / rel), 1.0)
+                    else:
+                        okc = rep.r("csr_intensity_vs_spectrum", abs(inten[rec, b] - tot - df * est) / slack, 1.0)
+                    if not okc:
                         rep.v(pfx + ":csr_intensity" + (":bunch>0" if b > 0 else ""), "stored CSR intensity is not delta_f times the sum of the stored spectrum of that bunch (plus the unstored top bin)",
                               record=rec, bunch=b, intensity=float(inten[rec, b]), df_sum_spectrum=tot, top_bin_estimate=df * est)
                         break
